@@ -625,6 +625,10 @@ class TorrentFileHybrid(MetaFile, ProgMixin):
         """
         info = self.meta["info"]
         info["meta version"] = 2
+        self.hashes = []
+        self.piece_layers = {}
+        self.pieces = []
+        self.files = []
 
         if os.path.isfile(self.path):
             self.kws["pad"] = False
@@ -732,6 +736,10 @@ class TorrentAssembler(MetaFile, ProgMixin):
         """
         info = self.meta["info"]
         info["meta version"] = 2
+        self.hashes = []
+        self.piece_layers = {}
+        self.pieces = bytearray()
+        self.files = []
 
         if os.path.isfile(self.path):
             self.kws["pad"] = False
